@@ -173,7 +173,7 @@ package fit
 
 //@@ representation invariant of the decoder's read buffer
 //@ pred inv_bytes(d *decoder) := 0 <= d.bytes.i && d.bytes.i <= d.bytes.j && d.bytes.j <= 4096 && 0 <= d.bytes.n && d.bytes.n <= d.bytes.limit && d.bytes.n+(d.bytes.j-d.bytes.i) <= d.bytes.limit && d.bytes.limit <= 0xFFFFFFFF
-//@ pred inv_io(d *decoder) := d.r != nil && d.crc != nil && dyncrc16.IsCrc16(d.crc)
+//@ pred inv_io(d *decoder) := d.r != nil && d.crc != nil && dyncrc16.IsCrc16(d.crc) && (d.debug ==> d.opts.logger != nil)
 //@@ bytes delivered by the reader but not yet consumed are exactly the buffered ones
 //@ spec framepos(d *decoder) int := pos(d.r) - d.bytes.n - (d.bytes.j - d.bytes.i)
 
@@ -261,12 +261,12 @@ package fit
 
 //@@ ------------------------------------------------------------------ profile lookups and definition validation
 
-//@ spec pf(m MesgNum, n byte) *field := ite(int(m) < len(_fields), _fields[m][n], nil)
-//@ pred pfound(m MesgNum, n byte) := pf(m, n) != nil
+//@ spec pure pf(m MesgNum, n byte) *field := ite(int(m) < len(_fields), _fields[m][n], nil)
+//@ pred pure pfound(m MesgNum, n byte) := pf(m, n) != nil
 
 //@@ Conditions under which parseFitField meets the preconditions of reflect and
 //@@ encoding/binary for a scalar native field (class/width from the struct type).
-//@ pred scalarOK(bt types.Base, size byte, cls int, wid int) :=
+//@ pred pure scalarOK(bt types.Base, size byte, cls int, wid int) :=
 //@  | ((bt == types.BaseByte || bt == types.BaseEnum || bt == types.BaseUint8 || bt == types.BaseUint8z) ==> cls == 1) &&
 //@  | (bt == types.BaseSint8 ==> cls == 2) &&
 //@  | (bt == types.BaseSint16 ==> cls == 2 && size >= 2) &&
@@ -276,7 +276,7 @@ package fit
 //@  | (bt == types.BaseFloat32 ==> cls == 3 && size >= 4) &&
 //@  | (bt == types.BaseFloat64 ==> cls == 3 && size >= 8) &&
 //@  | (bt == types.BaseString ==> cls == 4)
-//@ pred arrayOK(bt types.Base, size byte, cls int, ecls int, ewid int, ttag int) :=
+//@ pred pure arrayOK(bt types.Base, size byte, cls int, ecls int, ewid int, ttag int) :=
 //@  | cls == 5 &&
 //@  | (bt == types.BaseByte ==> ecls == 1 && ewid == 8) &&
 //@  | (bt != types.BaseByte && bt != types.BaseString ==> int(size)%bt.Size() == 0) &&
@@ -284,7 +284,7 @@ package fit
 //@  | ((bt == types.BaseSint8 || bt == types.BaseSint16 || bt == types.BaseSint32) ==> ecls == 2) &&
 //@  | ((bt == types.BaseFloat32 || bt == types.BaseFloat64) ==> ecls == 3) &&
 //@  | (bt == types.BaseString && size != 0 ==> ttag == typetag[[]string]())
-//@ pred fieldOK(m MesgNum, fd fieldDef, p *field) :=
+//@ pred pure fieldOK(m MesgNum, fd fieldDef, p *field) :=
 //@  | 0 <= p.sindex && p.sindex < rvNumField(int(m)) && p.t.Kind() <= 4 &&
 //@  | (p.t.Kind() == types.NativeFit && !p.t.Array() ==> scalarOK(fd.btype, fd.size, rvClass(int(m), p.sindex), rvWidth(int(m), p.sindex))) &&
 //@  | (p.t.Kind() == types.NativeFit && p.t.Array() ==> arrayOK(fd.btype, fd.size, rvClass(int(m), p.sindex), rvEClass(int(m), p.sindex), rvEWidth(int(m), p.sindex), rvTypeTag(int(m), p.sindex))) &&
@@ -293,10 +293,135 @@ package fit
 //@  | (p.t.Kind() == types.Lat ==> rvTypeTag(int(m), p.sindex) == typetag[Latitude]()) &&
 //@  | (p.t.Kind() == types.Lng ==> rvTypeTag(int(m), p.sindex) == typetag[Longitude]())
 //@@ compat: the weakest condition on a (message, field definition) pair under which the data parser is safe
-//@ pred compat(m MesgNum, fd fieldDef) := fd.btype.Known() && (fd.btype != types.BaseString ==> int(fd.size) >= fd.btype.Size()) && (knownMsgNums[m] && pfound(m, fd.num) ==> fieldOK(m, fd, pf(m, fd.num)))
+//@ pred pure opaque compat(m MesgNum, fd fieldDef) := fd.btype.Known() && (fd.btype != types.BaseString ==> int(fd.size) >= fd.btype.Size()) && (knownMsgNums[m] && pfound(m, fd.num) ==> fieldOK(m, fd, pf(m, fd.num)))
 
 //@ func (d *decoder) validateFieldDef(gmsgnum MesgNum, dfield fieldDef) (err error)
 //@   props C01
 //@   split profile gmsgnum dfield.num
+//@   reveal compat
 //@   ensures [compat] err == nil ==> compat(gmsgnum, dfield)
 //@   assigns nothing
+
+//@ lemma fields_rows_known(m MesgNum)
+//@   props C01 C15
+//@   concl forall n byte :: pfound(m, n) ==> knownMsgNums[m]
+
+//@@ ------------------------------------------------------------------ definition messages
+
+//@ pred wf_defmsg(dm *defmsg) := dm.localMsgType <= 15 && (isLE(dm.arch) || isBE(dm.arch)) && dm.globalMsgNum != MesgNumInvalid &&
+//@  | (forall k in 0..len(dm.fieldDefs) :: compat(dm.globalMsgNum, dm.fieldDefs[k]))
+
+//@ func (d *decoder) parseDefinitionMessage(recordHeader byte) (res *defmsg, err error)
+//@   props C01 C10 C11 C13
+//@   locals rangeindex int, dm *defmsg
+//@   requires inv_bytes(d) && inv_io(d)
+//@   ensures [inv] inv_bytes(d) && inv_io(d)
+//@   ensures [wf] err == nil ==> res != nil && fresh(res) && wf_defmsg(res)
+//@   ensures [slot] err == nil ==> res.localMsgType == recordHeader&0x0F
+//@   ensures [progress] d.bytes.n >= old(d.bytes.n) && d.bytes.limit == old(d.bytes.limit)
+//@   ensures [framepos] framepos(d) == old(framepos(d))
+//@   ensures [monotone] pos(d.r) >= old(pos(d.r))
+//@   assigns d.bytes.i, d.bytes.j, d.bytes.n, d.bytes.buf[..], d.tmp[..], pos(d.r), dyncrc16.GhostSum(d.crc)
+//@   loop 0 invariant [inv] inv_bytes(d) && inv_io(d) && d.bytes.limit == old(d.bytes.limit) && d.bytes.n >= old(d.bytes.n) && framepos(d) == old(framepos(d)) && pos(d.r) >= old(pos(d.r))
+//@   loop 0 invariant [dm] dm.localMsgType == recordHeader&0x0F && (isLE(dm.arch) || isBE(dm.arch)) && dm.globalMsgNum != MesgNumInvalid && len(dm.fieldDefs) == int(dm.fields) && fresh(dm) && dm != nil
+//@   loop 0 invariant [range] -1 <= rangeindex && rangeindex < len(dm.fieldDefs)
+//@   loop 0 invariant [compat] forall k in 0..rangeindex+1 :: compat(dm.globalMsgNum, dm.fieldDefs[k])
+//@   loop 0 assigns dm.fieldDefs[..]
+//@   loop 0 decreases len(dm.fieldDefs) - rangeindex
+//@   loop 1 invariant [inv] inv_bytes(d) && inv_io(d) && d.bytes.limit == old(d.bytes.limit) && d.bytes.n >= old(d.bytes.n) && framepos(d) == old(framepos(d)) && pos(d.r) >= old(pos(d.r))
+//@   loop 1 invariant [dm] wf_defmsg(dm) && dm.localMsgType == recordHeader&0x0F && fresh(dm) && dm != nil
+//@   loop 1 invariant [range] -1 <= rangeindex && rangeindex < len(dm.devDataFieldDescs)
+//@   loop 1 assigns dm.devDataFieldDescs[..]
+//@   loop 1 decreases len(dm.devDataFieldDescs) - rangeindex
+
+//@@ ------------------------------------------------------------------ time.go
+
+//@@ FIT epoch 1989-12-31T00:00:00Z = 631065600 seconds after the Unix epoch (from the property text)
+//@ func decodeDateTime(dt uint32) (t time.Time)
+//@   props C12 C17 C02
+//@   ensures [epoch] tsec(t) == 631065600+int(dt) && tns(t) == 0
+//@   ensures [utc] tzoff(t) == 0
+//@   assigns nothing
+
+//@ func encodeTime(t time.Time) (r uint32)
+//@   props C17 C06
+//@   requires 0 <= tns(t) && tns(t) < 1000000000 && tsec(t) >= 631065600 && tsec(t) < 631065600+(1<<32)
+//@   ensures [seconds] r == uint32(tsec(t)-631065600)
+//@   assigns nothing
+
+//@ func IsBaseTime(t time.Time) (r bool)
+//@   props C17
+//@   ensures [epoch] r == (tsec(t) == 631065600 && tns(t) == 0)
+//@   assigns nothing
+
+//@ lemma time_roundtrip(x uint32)
+//@   props C17
+//@   concl uint32((631065600+int(x))-631065600) == x && 631065600+int(x) >= 631065600 && 631065600+int(x) < 631065600+(1<<32)
+
+//@ lemma time_injective(x uint32, y uint32)
+//@   props C17
+//@   hyp 631065600+int(x) == 631065600+int(y)
+//@   concl x == y
+
+//@ lemma time_base_only_zero(x uint32)
+//@   props C17
+//@   concl (631065600+int(x) == 631065600) <==> x == 0
+
+//@@ ------------------------------------------------------------------ data messages
+
+//@@ assumed (body uses a table of closures and reflect.Value.Elem): the table
+//@@ entries and the constructors are checked by the C15 table obligations
+//@ func getMesgAllInvalid(mn MesgNum) (r reflect.Value)
+//@   props C01 C02
+//@   trusted
+//@   requires knownMsgNums[mn]
+//@   ensures rvismsg(r, int(mn)) && fresh(r)
+//@   assigns nothing
+
+//@ pred inv_defs(d *decoder) := forall s in 0..16 :: d.defmsgs[s] == nil || wf_defmsg(d.defmsgs[s])
+//@ pred inv_unknown(d *decoder) := (d.opts.unknownFields ==> d.unknownFields != nil) && (d.opts.unknownMessages ==> d.unknownMessages != nil)
+//@ pred inv_time(d *decoder) := d.timestamp != 0 ==> d.lastTimeOffset == int32(d.timestamp&31)
+
+//@ func (d *decoder) parseTimeStamp(dm *defmsg, fieldv reflect.Value, pfield *field)
+//@   props C01 C12
+//@   requires wf_defmsg(dm) && inv_io(d)
+//@   requires [timefield] rvmt(fieldv) < 0xFFF0 && rvttag(fieldv) == typetag[time.Time]()
+//@   requires pfield != nil
+//@   ensures [inv-time] old(inv_time(d)) ==> inv_time(d)
+//@   assigns d.timestamp, d.lastTimeOffset, rvstate(fieldv)
+
+//@ pred archOK(dm *defmsg) := isLE(dm.arch) || isBE(dm.arch)
+
+//@ func (d *decoder) parseFitField(dm *defmsg, dfield fieldDef, fieldv reflect.Value) (err error)
+//@   props C01
+//@   locals j int
+//@   requires archOK(dm) && rvmt(fieldv) < 0xFFF0
+//@   requires [scalar] scalarOK(dfield.btype, dfield.size, rvcls(fieldv), rvwid(fieldv))
+//@   assigns rvstate(fieldv)
+//@   loop 0 invariant [range] 0 <= j && j <= int(dfield.size)
+//@   loop 0 decreases int(dfield.size) - j
+
+//@ func (d *decoder) parseFitFieldArray(dm *defmsg, dfield fieldDef, fieldv reflect.Value) (err error)
+//@   props C01
+//@   requires archOK(dm) && rvmt(fieldv) < 0xFFF0 && dfield.btype.Known()
+//@   locals j int, k int
+//@   requires [array] arrayOK(dfield.btype, dfield.size, rvcls(fieldv), rvecls(fieldv), rvewid(fieldv), rvttag(fieldv))
+//@   assigns rvstate(fieldv)
+//@   loop 0 invariant [range] 0 <= j && j <= int(dfield.size)
+//@   loop 0 decreases int(dfield.size) - j
+//@   loop 1 invariant [range] 0 <= j && j <= int(dfield.size)
+//@   loop 1 decreases int(dfield.size) - j
+//@   loop 2 invariant [range] 0 <= k && k <= 255 && 0 <= j && j <= int(dfield.size) && j == k*dfield.btype.Size()
+//@   loop 2 decreases int(dfield.size) - j
+//@   loop 3 invariant [range] 0 <= k && k <= 255 && 0 <= j && j <= int(dfield.size) && j == k*dfield.btype.Size()
+//@   loop 3 decreases int(dfield.size) - j
+//@   loop 4 invariant [range] 0 <= k && k <= 255 && 0 <= j && j <= int(dfield.size) && j == k*dfield.btype.Size()
+//@   loop 4 decreases int(dfield.size) - j
+//@   loop 5 invariant [range] 0 <= k && k <= 255 && 0 <= j && j <= int(dfield.size) && j == k*dfield.btype.Size()
+//@   loop 5 decreases int(dfield.size) - j
+//@   loop 6 invariant [range] 0 <= k && k <= 255 && 0 <= j && j <= int(dfield.size) && j == k*dfield.btype.Size()
+//@   loop 6 decreases int(dfield.size) - j
+//@   loop 7 invariant [range] 0 <= k && k <= 255 && 0 <= j && j <= int(dfield.size) && j == k*dfield.btype.Size()
+//@   loop 7 decreases int(dfield.size) - j
+//@   loop 8 invariant [range] 0 <= j && j <= 255 && 0 <= k && k <= 255 && j+k < int(dfield.size)
+//@   loop 8 decreases int(dfield.size) - (j+k)
